@@ -85,6 +85,8 @@ type Case struct {
 	Prog       *pgen.Program
 	BuildDir   string
 	Runs       int
+	// MroPath is the MROPATH of the runs (nil: MroDir only).
+	MroPath []string
 }
 
 // NewCase lays out a case directory: mro files, spec.
@@ -120,6 +122,30 @@ func NewCase(buildDir, dir string, p *pgen.Program, tweak func(*pgen.Spec)) (*Ca
 		tweak(c.Spec)
 	}
 	return c, c.WriteSpec()
+}
+
+// MroPaths: the MROPATH entries of the case.
+func (c *Case) MroPaths() []string {
+	if len(c.MroPath) > 0 {
+		return c.MroPath
+	}
+	return []string{c.MroDir}
+}
+
+// RelocateIncludes moves the sub directory sub of MroDir (holding include
+// files) into a sibling directory MroDir+suffix and makes MROPATH the two
+// directories, in that order: the first entry is a string prefix - not a path
+// prefix - of the directory the definitions now live in.
+func (c *Case) RelocateIncludes(sub, suffix string) error {
+	sib := c.MroDir + suffix
+	if err := os.MkdirAll(sib, 0755); err != nil {
+		return err
+	}
+	if err := os.Rename(filepath.Join(c.MroDir, sub), filepath.Join(sib, sub)); err != nil {
+		return err
+	}
+	c.MroPath = []string{c.MroDir, sib}
+	return nil
 }
 
 func (c *Case) WriteSpec() error {
@@ -259,7 +285,7 @@ func (c *Case) Run(o RunOpts) *RunResult {
 		env = append(env, e)
 	}
 	env = append(env,
-		"MROPATH="+c.MroDir,
+		"MROPATH="+strings.Join(c.MroPaths(), ":"),
 		"VERIF_SPEC="+c.SpecPath,
 		"VERIF_EVENTS="+c.EventsPath,
 		fmt.Sprintf("VERIF_SEED=%d", o.Seed),
